@@ -5,6 +5,10 @@ import concurrent.futures as cf, glob, json, os, shutil, subprocess, sys, tempfi
 mode = sys.argv[1] if len(sys.argv) > 1 else "all"
 jobs = int(sys.argv[2]) if len(sys.argv) > 2 else 12
 seeds = sorted(os.path.basename(p) for p in glob.glob("/verif/seeded/C*-*"))
+import re
+FILTER = os.environ.get("SEED_FILTER")          # regex: run only these seeds and merge into the existing matrix
+if FILTER:
+    seeds = [s for s in seeds if re.search(FILTER, s)]
 props = sorted(os.path.basename(p)[:-3] for p in glob.glob("/verif/rules/C[0-9][0-9].py"))
 
 def one(seed):
@@ -25,7 +29,7 @@ def one(seed):
         shutil.rmtree(tmp)
     return seed, res
 
-out = {}
+out = json.load(open("/verif/seeded/MATRIX.json")) if FILTER and os.path.exists("/verif/seeded/MATRIX.json") else {}
 with cf.ThreadPoolExecutor(jobs) as ex:
     for seed, res in ex.map(one, seeds):
         out[seed] = res
@@ -34,5 +38,5 @@ with cf.ThreadPoolExecutor(jobs) as ex:
         errs = [p for p, r in res.items() if isinstance(r, dict) and r.get("exit") == 2]
         print(f"{seed}: caught by {caught or '-'}" + (f"; analysis-error in {errs}" if errs else ""), flush=True)
 json.dump(out, open("/verif/seeded/MATRIX.json", "w"), indent=1)
-missed = [s for s, r in out.items() if not any(isinstance(x, dict) and x.get("exit") == 1 for x in r.values())]
+missed = [s for s, r in sorted(out.items()) if not any(isinstance(x, dict) and x.get("exit") == 1 for x in r.values())]
 print("MISSED:", missed)
